@@ -25,7 +25,7 @@ mkdir -p "$OUT"
 for id in "$@"; do
   tier=quick
   case "$id" in *:thorough) tier=thorough; id="${id%%:*}";; esac
-  VERIF_REPO="$WT" VERIF_OUT="$OUT" /verif/check "$id" $tier > "$OUT/$id.log" 2>&1
+  VERIF_REPO="$WT" VERIF_OUT="$OUT" "${VERIF_HOME:-/verif}/check" "$id" $tier > "$OUT/$id.log" 2>&1
   code=$?
   echo "check $id $tier on changed tree: exit $code"
   grep -E "^VIOLATION|^KNOWN|^HARNESS|class=" "$OUT/$id.log" | head -4
